@@ -197,6 +197,17 @@ func workerMain(args []string) {
 			os.Exit(0)
 		}
 		out.StartupOK = true
+		// segments that only have a .sfm are adopted by a goroutine started in InitQueryNode
+		// (initSyncSegMetaForAllIds): wait until two consecutive match-all answers agree
+		var prev []int
+		for i := 0; i < 20; i++ {
+			time.Sleep(100 * time.Millisecond)
+			cur, _, _ := matchAll(h.Index)
+			if i > 0 && fmt.Sprint(cur) == fmt.Sprint(prev) {
+				break
+			}
+			prev = cur
+		}
 		ids, bad, err := matchAll(h.Index)
 		out.IDs, out.Bad = ids, bad
 		if err != nil {
